@@ -74,6 +74,8 @@ MUTANTS = [
     # ---- C10 / C11 (grammar + filter)
     ("c10-crlf", ["C10"], GR, '"\\u{000C}" | "\\r" | " "', '"\\u{000C}" | " "', "CR no longer whitespace"),
     ("c10-sval", ["C10", "C13"], GR, '"err" | "sval" | "serde"', '"err" | "serde"', "modifier vocabulary"),
+    ("c10-word-skip", ["C10", "C11"], GR, "(log_macro | ANY)* ~", "(log_macro | ((XID_START | \"_\") ~ XID_CONTINUE*) | ANY)* ~",
+     "non-atomic skip-a-word alternative in the scan loop (eats the name after `return `)"),
     ("c11-ends-with", ["C11", "C10"], RP,
      "            if macro_name == config_macro.name.as_str()\n", "            if macro_name.ends_with(config_macro.name.as_str())\n", "suffix match in the macro filter"),
     ("c11-block-comment", ["C11"], GR, '("/*" ~ (!"*/" ~ ANY)* ~ "*/")', '("/**" ~ (!"*/" ~ ANY)* ~ "*/")', "plain block comments no longer comments"),
